@@ -421,7 +421,10 @@ def _ds_pure():
             if what == "take_axis":
                 st["ind"] = [rng.randrange(len(labs)) for _ in range(rng.randint(1, 3))] if labs else []
             if what == "rename_axes_copy":
-                st["new"] = rng.choice(NEWDIMS)
+                free = [d for d in NEWDIMS if d not in ds.dims]
+                if not free:
+                    return None
+                st["new"] = rng.choice(free)
                 st["old"] = ds.dims[i]
         if what == "ds_op_ds":
             st["b"] = rng.choice(dss)
@@ -451,6 +454,8 @@ def _ds_pure():
         if what == "rename_keys_copy":
             return ds.rename_keys(lambda k: k + "_r", inplace=False)
         if what == "rename_axes_copy":
+            if s["new"] in ds.dims or s["old"] not in ds.dims:
+                raise Skip("name")
             return ds.rename_axes({s["old"]: s["new"]}, inplace=False)
         if what == "set_axis_copy":
             return ds.set_axis(V.label_array(s["values"]), axis=s["axis"], inplace=False)
@@ -547,7 +552,7 @@ def _gen_route(w, rng, acts):
     elif r < 0.8:
         pool = MEMBER_NAMES.get(cname, ["values"])
     else:
-        pool = list(getattr(tgt, "dims", ())) or PUBLIC_NAMES
+        pool = list(tgt.dims if hasattr(type(tgt), "dims") else ()) or PUBLIC_NAMES
         pool = [p for p in pool if "," not in p] or PUBLIC_NAMES
     st["name"] = rng.choice(pool)
     st["act"] = rng.choice(acts)
@@ -633,11 +638,26 @@ def _throwaway(w, s, owner):
 @defop("route_write", "route", kind="inplace", weight=3.0)
 def _route_write():
     def gen(w, rng):
-        g = _gen_route(w, rng, ["set", "set", "del", "dictset", "dictdel", "attrs_assign", "attrs_del"])
+        g = _gen_route(w, rng, ["set", "set", "set", "del", "del", "dictset", "dictset", "dictset", "dictdel",
+                                "attrs_assign", "attrs_del"])
         if not g:
             return None
         st, tgt = g
         cls = classify(tgt, st["name"])
+        if st["act"] == "dictset" and cls != "public" and not w.plan:
+            # follow an entry stored under a reserved name with reads / deletes of that very name
+            base = {"a": st["a"], "axis": st["axis"], "name": st["name"]}
+            follow = []
+            for act in rng.sample(["get", "has", "del", "set", "get"], rng.randint(2, 4)):
+                f = dict(base)
+                f["act"] = act
+                f["op"] = "route_read" if act in ("get", "has") else "route_write"
+                if act == "set":
+                    f["value"] = "txt"
+                    if cls == "dim":
+                        continue
+                follow.append(f)
+            w.plan = [(lambda w_, r_, f=f: f if f["a"] in w_.objs else None) for f in follow]
         if st["act"] == "set" and cls == "dim":
             labs = plain_labels(tgt.axes[st["name"]])
             if not labs:
@@ -748,8 +768,7 @@ def _route_write():
         elif cls == "dim" and act == "set":
             got = obj.axes[name].values
             want = V.label_array(val)
-            if raised is not None or V.attrs_key(obj.attrs) != akey0 or not V._close(got, want, 0) \
-                    or V.label_kind(got) != V.label_kind(want):
+            if raised is not None or V.attrs_key(obj.attrs) != akey0 or not V._close(got, want, 0):
                 raise Violation("C16", "route_set", "%s.%s = %r must relabel the axis and leave attrs alone: labels %r attrs %r" % (
                     tname, name, val, V.labels_list(got), dict(obj.attrs)))
         w.count("c16:route_%s_%s" % (act, cls))
